@@ -285,6 +285,34 @@ def driverflags(repo):
                                 "computed from a command-line option instead of the option itself; the other build path passes "
                                 "the option as typed, so the two paths compile different module names / search paths",
                                 m.rel, n.lineno, f.qualname)
+    # hand-off clause: the file named by --output-file is the only channel between the two programs of the split build
+    # (build_defs.bzl: front end writes X, back end reads X).  Whether it is written may depend on --output-file alone:
+    # under an `elif`/`else` of another option (`--output-ir-to-stdout`) that option silently suppresses the file and
+    # the back end reads nothing -- or the file of an earlier build.
+    for dname in ("emboss_front_end", "emboss_codegen_cpp"):
+        m = drivers[dname]
+        writes = [n for n in ast.walk(m.tree) if isinstance(n, ast.Call) and call_name(n) == "open" and len(n.args) >= 2
+                  and isinstance(n.args[1], ast.Constant) and "w" in str(n.args[1].value)
+                  and isinstance(n.args[0], ast.Attribute) and n.args[0].attr == "output_file"]
+        if not writes:
+            raise AnalysisError(f"{m.rel}: the statement writing --output-file was not found")
+        for w in writes:
+            res.instances += 1
+            f = m.enclosing_func(w)
+            node = w
+            while node is not None and (f is None or node is not f.node):
+                parent = m.parent(node)
+                if isinstance(parent, ast.If):
+                    in_body = any(node is st for st in parent.body)
+                    names = {x.attr for x in ast.walk(parent.test) if isinstance(x, ast.Attribute)}
+                    if not in_body or names - {"output_file"}:
+                        res.add(f"{m.rel}|{f.qualname if f else '?'}|handoff", f"the write of --output-file is "
+                                + (f"under the else/elif of `{ast.unparse(parent.test)[:50]}`" if not in_body else f"guarded by `{ast.unparse(parent.test)[:50]}`")
+                                + ": another option decides whether the hand-off file exists, so `--output-ir-to-stdout --output-file X` "
+                                "leaves X missing or stale and the split build generates nothing or the previous revision's header",
+                                m.rel, parent.lineno, f.qualname if f else "")
+                        break
+                node = parent
     base = opts["embossc"]
     # options that reach compilation: flags.<dest> handed by embossc to the shared entry points
     shared = set()
